@@ -98,6 +98,31 @@ fn same_fields(a: &DltMessage, b: &DltMessage) -> Result<(), String> {
     Ok(())
 }
 
+/// `adlt convert -o a.dlt in.dlt`, `adlt convert -o b.dlt a.dlt`: returns (a, b) or None when the binary is not available
+fn convert_twice(data: &[u8]) -> Option<Result<(Vec<u8>, Vec<u8>), String>> {
+    let bin = std::env::var("VERIF_ADLT_BIN").ok()?;
+    if !std::path::Path::new(&bin).exists() {
+        return None;
+    }
+    let dir = tempfile::tempdir().ok()?;
+    let p = |n: &str| dir.path().join(n);
+    std::fs::write(p("in.dlt"), data).ok()?;
+    let run = |out: &str, inp: &str| -> Result<(), String> {
+        let o = std::process::Command::new(&bin).arg("convert").arg("-o").arg(p(out)).arg(p(inp)).output().map_err(|e| e.to_string())?;
+        if !o.status.success() {
+            return Err(format!("adlt convert exit {:?}: {}", o.status.code(), String::from_utf8_lossy(&o.stderr)));
+        }
+        Ok(())
+    };
+    Some((|| {
+        run("a.dlt", "in.dlt")?;
+        run("b.dlt", "a.dlt")?;
+        let a = std::fs::read(p("a.dlt")).map_err(|e| e.to_string())?;
+        let b = std::fs::read(p("b.dlt")).map_err(|e| e.to_string())?;
+        Ok((a, b))
+    })())
+}
+
 fn record_stream(sink: &mut Sink, start: u32, segs: Segs, extra: &[&str]) {
     let data = flatten(&segs);
     let fail = |c: &str, d: String| Verdict::Fail { clause: c.into(), detail: d };
@@ -164,6 +189,21 @@ fn record_stream(sink: &mut Sink, start: u32, segs: Segs, extra: &[&str]) {
                                             }
                                         }
                                         Err(e) => verdict = fail("reparse", format!("message {}: {}", k, e)),
+                                    }
+                                }
+                            }
+                        }
+                        if in_domain && matches!(verdict, Verdict::Ok) && extra.contains(&"e2e") && start == 0 {
+                            // the `-o` path of the binary: same bytes as to_write of every message, and a fixed point
+                            match convert_twice(&data) {
+                                None => tags.push("e2e_skipped_no_binary".into()),
+                                Some(Err(e)) => verdict = fail("convert_o_runs", e),
+                                Some(Ok((fa, fb))) => {
+                                    tags.push("e2e_convert_twice".into());
+                                    if fa != b1 {
+                                        verdict = fail("convert_o_writes_every_message_with_to_write", format!("file has {} bytes, to_write of the {} messages {}", fa.len(), r1.msgs.len(), b1.len()));
+                                    } else if fb != fa {
+                                        verdict = fail("export_of_export_identical", format!("{} vs {} bytes", fa.len(), fb.len()));
                                     }
                                 }
                             }
@@ -311,7 +351,8 @@ fn main() {
             let m2 = g::plain(0x21, b"xxDLT\x01yyDLS\x01");
             let m3 = g::plain(0x20, b"");
             let (s, segs) = stream_of(Input::Stream { framing: f, start: 10, parts: vec![Part::G(vec![(1, vec![1, 2, 3])]), Part::M(m1), Part::M(m2), Part::M(m3)] });
-            record_stream(&mut sink, s, segs, &["corpus"]);
+            record_stream(&mut sink, s, segs.clone(), &["corpus"]);
+            record_stream(&mut sink, 0, segs, &["corpus", "e2e"]);
         }
         // near-maximum payloads: every header shape at len = 65535
         for htyp in [0x20u8, 0x3f, 0x2c, 0x31] {
@@ -354,7 +395,12 @@ fn main() {
             _ => {
                 let inp = if quick { g::gen_stream(&mut rng, 5, 20, 12) } else { g::gen_stream(&mut rng, 10, 64, 30) };
                 let (s, segs) = stream_of(inp);
-                record_stream(&mut sink, s, segs, &[]);
+                // every 16th case also goes through the `adlt convert -o` binary twice (index starts at 0 there)
+                if k % 16 == 2 {
+                    record_stream(&mut sink, 0, segs, &["e2e"]);
+                } else {
+                    record_stream(&mut sink, s, segs, &[]);
+                }
             }
         }
     }
